@@ -40,6 +40,18 @@ def cases_for(ctx, focus_limits):
             spec = gen_rulesets.gen_ruleset(rng, omen=om, max_vals=2, max_pos=2, max_structs=1, markov=True)
             spec['omen_prob'] = [[str(L), repr(0.5 ** (k + 1))] for k, L in enumerate(range(1, 9))]
             dist['markov_level_sequence'] = 8
+        elif i in (1, 2, 3):
+            # whatever the seed: rulesets in a two-byte legacy encoding whose Markov alphabet holds the characters that "compatible"
+            # codecs decode differently (GB2312 A1A4 / A1AA: U+30FB / U+2015 there, U+00B7 / U+2014 under GBK and GB18030)
+            enc_, repl_ = [('gb2312', '\u30fb'), ('gb2312', '\u2015'), ('euc_kr', '\ud55c')][i - 1]
+            om = gen_omen.gen_omen(rng, ngram=2, nletters=2, maxlen_extra=2, levels=[0, 1, 2], density=1.0)
+            tr_ = {ord(om['alphabet'][1]): repl_}
+            om = dict(om, alphabet=[a.translate(tr_) for a in om['alphabet']], ip=[[l, g.translate(tr_)] for l, g in om['ip']],
+                      ep=[[l, g.translate(tr_)] for l, g in om['ep']], cp=[[l, g.translate(tr_)] for l, g in om['cp']])
+            spec = {'terminals': {'D1': [['1', '0.5'], ['2', '0.25']], 'A2': [['ab', '0.5'], [repl_ + 'x', '0.25']], 'C2': [['LL', '0.75'], ['UL', '0.25']]},
+                    'grammar': [['M', '0.5'], ['A2D1', '0.25'], ['D1', '0.25']], 'omen_prob': [['1', '0.5'], ['2', '0.25'], ['3', '0.125']], 'prince': [],
+                    'mode': 'dyadic', 'encoding': enc_, 'omen': om}
+            dist['two_byte_encodings'] = dist.get('two_byte_encodings', 0) + 1
         else:
             om = gen_omen.gen_omen(rng, ngram=rng.choice([2, 3]), nletters=2, maxlen_extra=rng.choice([1, 2]))
             spec = gen_rulesets.gen_ruleset(rng, omen=om, max_vals=3, max_pos=4)
@@ -64,13 +76,13 @@ def cases_for(ctx, focus_limits):
         exp += ['ok'] * len(gops)
         nodes = list(gen_rulesets.all_nodes(grid))
         rng.shuffle(nodes)
-        if i == 0:
+        if i in (0, 1, 2, 3):
             mnodes = sorted((n_ for n_ in nodes if grid[n_[0]][2] and grid[n_[0]][2][0] == 'M'), key=lambda n_: n_[1])
             nodes = mnodes + [n_ for n_ in nodes if n_ not in mnodes][:3]
-        for b, idx in (nodes if i == 0 else nodes[:ctx.scale(5, 10)]):
+        for b, idx in (nodes if i in (0, 1, 2, 3) else nodes[:ctx.scale(5, 10)]):
             pt = [(r, j) for r, j in zip(grid[b][2], idx)]
             total = corr_expand.pt_size(pcfg, pt)
-            if total > 400 and i != 0:
+            if total > 400 and i not in (0, 1, 2, 3):
                 continue
             limits = corr_expand.limits_for(total, rng, ctx.quick) if focus_limits else [None]
             want = corr_expand.product_oracle(pcfg, pt)
